@@ -7,8 +7,9 @@ export GOFLAGS=-mod=mod GOPROXY=off
 unset GOSUMDB GOTOOLCHAIN
 mkdir -p .build evidence
 cd harness
-go build ./... 
-for d in c*/; do
+go build ./...
+go build -o ../.build/sqlitechild.warm ./cmd/sqlitechild && rm -f ../.build/sqlitechild.warm
+for d in c[0-9][0-9]/; do
   d=${d%/}
   [ -f "$d/.norace" ] || go test -c -vet=off -tags verif -race -o ../.build/warm.test ./$d >/dev/null 2>&1 || true
   go test -c -vet=off -tags verif -o ../.build/warm.test ./$d
